@@ -1,8 +1,8 @@
 INIT Init
 NEXT Next
 CONSTANTS
-  Corpus <- C8
-  MaxLen = 4
+  Corpus <- C22
+  MaxLen = 3
   Deviations = {}
 CONSTRAINT Bound
 CHECK_DEADLOCK FALSE
